@@ -17,7 +17,8 @@ TraceInit == /\ tid \in 1..Len(Traces) /\ l = 1
              /\ hist = <<[E0 EXCEPT !.op = "init"]>>
 TSet == Step /\ Ev.op = "set" /\ Ev.p \in Params /\ Ev.v \in Values(Ev.p)
         /\ Ev.via \in Vias(Ev.p) /\ Set(Ev.p, Ev.v, Ev.via)
-        /\ (IsNoOp(Ev.p, Ev.v) \/ Required(Ev.p, cfg') \subseteq Rng(Ev.ran))
+        \* ("__blind__": the recorder could not see the registry of this version of the library; the state is validated only)
+        /\ (IsNoOp(Ev.p, Ev.v) \/ "__blind__" \in Rng(Ev.ran) \/ Required(Ev.p, cfg') \subseteq Rng(Ev.ran))
 TObserve == Step /\ Ev.op = "observe" /\ Observe(Ev.k)
 TraceNext == TSet \/ TObserve
 TraceSpec == TraceInit /\ [][TraceNext]_tvars
